@@ -150,6 +150,29 @@ def one(ctx, drv, i, prof, case):
     except Exception as e:
         ctx.fail('C16 oracle: the subclass rejects its own %s at %r (%s)' % (kind, path, type(e).__name__), jcase, detail=str(e)[:300])
         return
+    # (3b) ... nor when they are handed the schema *object* of the subclass's validator
+    for other in (Validator, Sibling):
+        if other is Sibling and not uses_only_x:
+            continue
+        for entry in ('constructor', 'setter', 'per-call'):
+            Validator.clear_caches()
+            try:
+                if entry == 'constructor':
+                    other(v.schema, **copy.deepcopy(case.get('cfg', {})))
+                elif entry == 'setter':
+                    o = other(**copy.deepcopy(case.get('cfg', {})))
+                    o.schema = v.schema
+                else:
+                    other(**copy.deepcopy(case.get('cfg', {}))).validate({}, v.schema)
+                ctx.fail('C16 oracle: %s accepts the schema object of a validator of another class (a schema that uses its %s) '
+                         'through the %s' % (other.__name__, kind, entry), dict(jcase, entry=entry, other=other.__name__))
+                break
+            except SchemaError:
+                pass
+            except Exception as e:
+                ctx.fail('C16 oracle: %s raised %s for the schema object of another class through the %s'
+                         % (other.__name__, type(e).__name__, entry), dict(jcase, entry=entry))
+                break
     # ports: accept with the live class tables, then validation / normalization against the model
     req = {'port': 'accept', 'schema': codec.enc_val(sch), 'env': {}, 'cls': schemas.cls_tables(XValidator)}
     rep = drv.ask(req)
@@ -269,6 +292,9 @@ def factory_classes(ctx):
             if constraint and isinstance(value, int) and not isinstance(value, bool) and value % 2 == 0:
                 self._error(field, 'must be odd')
 
+    class DocMixin(TypeMixin):
+        """A mixin with a docstring of its own (the factory joins the docstrings of the bases)."""
+
     class Stated(TypeMixin, RuleMixin, Validator):
         pass
 
@@ -276,6 +302,7 @@ def factory_classes(ctx):
             'factory, tuple of mixins': validator_factory('FTuple', (TypeMixin, RuleMixin)),
             'factory, tuple of mixins (other order)': validator_factory('FTuple2', (RuleMixin, TypeMixin)),
             'factory, one mixin + namespace': validator_factory('FOne', TypeMixin, {'_validate_is_odd': RuleMixin._validate_is_odd}),
+            'factory, documented mixin + namespace': validator_factory('FDoc', DocMixin, {'_validate_is_odd': RuleMixin._validate_is_odd}),
             'factory, namespace only': validator_factory('FNs', None, {'types_mapping': TypeMixin.types_mapping,
                                                                       '_validate_is_odd': RuleMixin._validate_is_odd})}
     shapes = [lambda r: {'f': r},
